@@ -42,6 +42,9 @@ Truthy(v) == IF v.tag = "v" THEN v.tr ELSE IF v.tag = "l" THEN Len(v.items) > 0 
 Vid(v) == IF v.tag = "v" THEN ToString(v.id) ELSE IF v.tag = "c" THEN v.c ELSE "list"
 Ok(m) == m.status = "ok"
 Exc(m, what) == [m EXCEPT !.status = "exc", !.val = Const(what)]
+\* an operator applied to constants only (None / booleans / numbers) is computed by Python itself: outside this model.
+\* Such a run is neither replayed nor compared (status "unmodelled").
+Unmodelled(m) == [m EXCEPT !.status = "unmodelled"]
 
 \* oracle event: creates a value; consumes one answer
 Oracle(m, a, what) ==
@@ -85,11 +88,11 @@ Eval(N, m, a, e) ==
        IF ~Ok(m1) THEN m1 ELSE
        LET m2 == Eval(N, m1, a, n.r) IN
        IF ~Ok(m2) THEN m2
-       ELSE IF ~IsOpaque(m1.val) /\ ~IsOpaque(m2.val) THEN Exc(m2, "TypeError")
+       ELSE IF ~IsOpaque(m1.val) /\ ~IsOpaque(m2.val) THEN Unmodelled(m2)
        ELSE Oracle(m2, a, <<"op", Vid(m1.val), Vid(m2.val)>>)
   ELSE IF n.k = "neg" THEN
        LET m1 == Eval(N, m, a, n.e) IN
-       IF ~Ok(m1) THEN m1 ELSE IF ~IsOpaque(m1.val) THEN Exc(m1, "TypeError") ELSE Oracle(m1, a, <<"neg", Vid(m1.val)>>)
+       IF ~Ok(m1) THEN m1 ELSE IF ~IsOpaque(m1.val) THEN Unmodelled(m1) ELSE Oracle(m1, a, <<"neg", Vid(m1.val)>>)
   ELSE IF n.k = "attr" THEN
        LET m1 == Eval(N, m, a, n.e) IN
        IF ~Ok(m1) THEN m1 ELSE IF ~IsOpaque(m1.val) THEN Exc(m1, "AttributeError") ELSE Oracle(m1, a, <<"attr", Vid(m1.val)>>)
@@ -116,7 +119,7 @@ EvalBool(N, m, a, op, vs, j) ==
 EvalCmp(N, m, a, lv, rs, j) ==
   LET m1 == Eval(N, m, a, rs[j]) IN
   IF ~Ok(m1) THEN m1
-  ELSE IF ~IsOpaque(lv) /\ ~IsOpaque(m1.val) THEN Exc(m1, "TypeError")
+  ELSE IF ~IsOpaque(lv) /\ ~IsOpaque(m1.val) THEN Unmodelled(m1)
   ELSE LET m2 == Oracle(m1, a, <<"cmp", Vid(lv), Vid(m1.val)>>) IN
        IF ~Ok(m2) \/ j = Len(rs) \/ ~Truthy(m2.val) THEN m2 ELSE EvalCmp(N, m2, a, m1.val, rs, j + 1)
 
@@ -145,7 +148,7 @@ Exec(N, m, a, s) ==
        IF n.t \notin DOMAIN m.st THEN Exc(m, "Unbound")
        ELSE LET m1 == Eval(N, m, a, n.v) IN
             IF ~Ok(m1) THEN m1
-            ELSE IF ~IsOpaque(m.st[n.t]) /\ ~IsOpaque(m1.val) THEN Exc(m1, "TypeError")
+            ELSE IF ~IsOpaque(m.st[n.t]) /\ ~IsOpaque(m1.val) THEN Unmodelled(m1)
             \* in-place add on an opaque value; a constant on the left falls back to the reflected binary operator
             ELSE LET m2 == Oracle(m1, a, <<IF IsOpaque(m.st[n.t]) THEN "iop" ELSE "op", Vid(m.st[n.t]), Vid(m1.val)>>) IN
                  IF ~Ok(m2) THEN m2 ELSE Store(m2, n.t, m2.val)
@@ -199,15 +202,16 @@ VARIABLES pid, ans, done
 vars == <<pid, ans, done>>
 Alphabet(need) == IF need = "len" THEN {"0", "1", "2", "R"} ELSE IF need = "param" THEN {"T", "F"} ELSE {"T", "F", "R"}
 
-InitExplore == /\ pid \in 1..Len(Progs) /\ ans = <<>> /\ done = (Run(pid, <<>>).status # "more")
+DoneOf(m) == IF m.status = "more" THEN "more" ELSE IF m.status = "unmodelled" THEN "skip" ELSE "done"
+InitExplore == /\ pid \in 1..Len(Progs) /\ ans = <<>> /\ done = DoneOf(Run(pid, <<>>))
 NextExplore ==
-  /\ ~done
+  /\ done = "more"
   /\ Len(ans) < MaxD
   /\ LET m == Run(pid, ans) IN
      /\ m.need # "fuel"
      /\ \E x \in Alphabet(m.need) :
           /\ ans' = Append(ans, x)
-          /\ done' = (Run(pid, ans').status # "more")
+          /\ done' = DoneOf(Run(pid, ans'))
           /\ UNCHANGED pid
 
 (******************************* trace (E2) *******************************)
@@ -217,12 +221,13 @@ Flat(ev) == [j \in 1..Len(ev) |-> ev[j][1] \o <<ev[j][2]>>]
 Verdict(c) ==
   LET m == Run(c.pid, c.ans) IN
   IF m.status = "more" THEN {"MACHINERY-script-incomplete"}
+  ELSE IF m.status = "unmodelled" THEN {}
   ELSE (IF Flat(m.ev) # c.events THEN {"Events"} ELSE {})
        \cup (IF Outcome(m) # c.outcome THEN {"Outcome"} ELSE {})
 
 Init == IF Mode = "explore"
         THEN InitExplore /\ tid = 0 /\ bad = {}
-        ELSE tid \in 1..Len(Cases) /\ bad = Verdict(Cases[tid]) /\ pid = 0 /\ ans = <<>> /\ done = TRUE
+        ELSE tid \in 1..Len(Cases) /\ bad = Verdict(Cases[tid]) /\ pid = 0 /\ ans = <<>> /\ done = "done"
 Next == IF Mode = "explore" THEN NextExplore /\ UNCHANGED <<tid, bad>> ELSE UNCHANGED <<pid, ans, done, tid, bad>>
 Holds == bad = {}
 =============================================================================
